@@ -20,7 +20,16 @@ The scratch copy is removed after each mutant.
 import argparse, json, os, shutil, subprocess, sys, tempfile, time
 
 HERE = os.path.dirname(os.path.dirname(os.path.abspath(__file__)))
-ENV = dict(os.environ, GOFLAGS="-mod=mod", GOPROXY="off", GOSUMDB="off", GOTOOLCHAIN="local", GOWORK="off")
+# -trimpath: scratch copies in different directories share compiled packages; the build cache of the
+# matrix lives in a directory of its own (VERIF_GOCACHE, or a temporary one that is removed at exit):
+# building hundreds of copies into the default cache filled the disk once (134 GB)
+import atexit
+_OWN_CACHE = None
+if not os.environ.get("VERIF_GOCACHE"):
+    _OWN_CACHE = tempfile.mkdtemp(prefix="shovelmut-gocache.")
+    atexit.register(lambda: shutil.rmtree(_OWN_CACHE, ignore_errors=True))
+ENV = dict(os.environ, GOFLAGS="-mod=mod -trimpath", GOPROXY="off", GOSUMDB="off", GOTOOLCHAIN="local", GOWORK="off",
+           GOCACHE=os.environ.get("VERIF_GOCACHE") or _OWN_CACHE)
 
 def run_one(m, repo, tests):
     tmp = tempfile.mkdtemp(prefix="shovelmut.")
